@@ -12,6 +12,9 @@ CONSTANTS Acct,       \* account names
           KindsOf,    \* [Acct -> set of setter kinds transactions can issue on that account]
           BaseSet,    \* set of committed parent states [Acct -> account record]
           MaxSteps, MaxSnap, FreeVals, WithSeal,
+          MaxRevs,    \* snapshots taken in one behaviour (MaxSnap bounds the live ones)
+          MaxOuter,   \* setter calls made while no revision is live ...
+          MaxInner,   \* ... and while one is: shapes the generator ("write, Snapshot, create, Revert, write, Seal")
           Dv
 Z == "Z"              \* the zero root
 VARIABLES st,         \* [Acct -> account record]              the live accounts (Manager.accountCache)
@@ -24,17 +27,20 @@ VARIABLES st,         \* [Acct -> account record]              the live accounts
           dead,       \* RevertToSnapshot panicked
           sealed,     \* the block is finished: logs merged and published, accounts finalised
           redo,       \* the state RebuildAll derives from the published logs and the parent state
-          ghost,      \* {<<account, root>>}: trie caches holding an empty dirty entry written back by an undo
+          ghost,      \* {<<account, root>>}: trie caches holding an empty dirty entry; {<<account, "code">>}: dirty code
+          saveerr,    \* Manager.Save of the sealed block failed
           clean,      \* history: the sealed state of a run that executed ONLY the surviving journal entries
           pub,        \* [Acct -> [kinds, roots]]  what the sealed block publishes (merged logs, changed roots)
           cleanpub,   \* ... and what the block of that other run publishes
+          cnt,        \* <<outer, inner>> setter calls so far (counted only when MaxOuter / MaxInner bound anything)
           steps
-vars == <<st, base, journal, ver, revs, nextId, saved, dead, sealed, redo, ghost, clean, pub, cleanpub, steps>>
+vars == <<cnt, st, base, journal, ver, revs, nextId, saved, dead, sealed, redo, ghost, saveerr, clean, pub, cleanpub, steps>>
 
 Types == {LogType(k) : k \in UNION {KindsOf[a] : a \in Acct}}
 Init == /\ base \in BaseSet /\ st = base
         /\ journal = <<>> /\ revs = <<>> /\ nextId = 0 /\ saved = <<>> /\ dead = FALSE /\ steps = 0
-        /\ sealed = FALSE /\ redo = <<>> /\ ghost = {} /\ clean = <<>> /\ pub = <<>> /\ cleanpub = <<>>
+        /\ cnt = <<0, 0>>
+        /\ sealed = FALSE /\ redo = <<>> /\ ghost = {} /\ saveerr = FALSE /\ clean = <<>> /\ pub = <<>> /\ cleanpub = <<>>
         /\ ver = [a \in Acct |-> [t \in Types |-> 0]]
 Step == ~dead /\ ~sealed /\ steps < MaxSteps /\ steps' = steps + 1
 
@@ -70,18 +76,21 @@ Can(r, k) == CASE k = "sui" -> ~r.sui
 
 Set(a, k, v) ==
   /\ Step /\ k \in KindsOf[a] /\ Can(st[a], k)
+  /\ IF MaxOuter >= MaxSteps /\ MaxInner >= MaxSteps THEN cnt' = cnt
+     ELSE IF revs = <<>> THEN cnt[1] < MaxOuter /\ cnt' = <<cnt[1] + 1, cnt[2]>>
+     ELSE cnt[2] < MaxInner /\ cnt' = <<cnt[1], cnt[2] + 1>>
   /\ FreeVals \/ v = NextVal(st[a], k)
   /\ ver' = [ver EXCEPT ![a][LogType(k)] = @ + 1]
   /\ journal' = Append(journal, [a |-> a, k |-> k, old |-> OldOf(st[a], k), new |-> v, n |-> ver[a][LogType(k)] + 1])
   /\ st' = [st EXCEPT ![a] = Effect(@, k, v, Z)]
-  /\ ghost' = GhostsAfterSet(ghost, a, k)
-  /\ UNCHANGED <<base, revs, nextId, saved, dead, sealed, redo, clean, pub, cleanpub>>
+  /\ ghost' = GhostsAfterSet(ghost, a, k, v)
+  /\ UNCHANGED <<base, revs, nextId, saved, dead, sealed, redo, saveerr, clean, pub, cleanpub>>
 
 Snapshot ==
-  /\ Step /\ Len(revs) < MaxSnap
+  /\ Step /\ Len(revs) < MaxSnap /\ nextId < MaxRevs
   /\ revs' = Append(revs, [id |-> nextId, idx |-> Len(journal)])
   /\ saved' = Append(saved, st) /\ nextId' = nextId + 1
-  /\ UNCHANGED <<st, base, journal, ver, dead, sealed, redo, ghost, clean, pub, cleanpub>>
+  /\ UNCHANGED <<st, base, journal, ver, dead, sealed, redo, ghost, saveerr, clean, pub, cleanpub, cnt>>
 
 Revert(i) ==
   /\ Step /\ i \in 1..Len(revs)
@@ -92,7 +101,7 @@ Revert(i) ==
           /\ journal' = SubSeq(journal, 1, revs[i].idx)
           /\ revs' = SubSeq(revs, 1, i - 1)
           /\ dead' = FALSE
-  /\ UNCHANGED <<base, ver, nextId, saved, sealed, redo, clean, pub, cleanpub>>
+  /\ UNCHANGED <<base, ver, nextId, saved, sealed, redo, saveerr, clean, pub, cleanpub, cnt>>
 
 \* the block is finished (MergeChangeLogs, Finalise: the roots of every account that keeps a published log are
 \* recomputed, changed roots are published); a node that only has the parent state and the published logs replays
@@ -105,7 +114,8 @@ Seal ==
   /\ clean' = Finalised(Executed(base, journal, Z), journal, Z, {}, Dv)
   /\ pub' = [a \in Acct |-> PubOf(st', base, journal, a, Z, Dv)]
   /\ cleanpub' = [a \in Acct |-> PubOf(clean', base, journal, a, Z, Dv)]
-  /\ UNCHANGED <<base, journal, ver, revs, nextId, saved, dead, ghost, steps>>
+  /\ saveerr' = SaveFails(st', journal, Z, ghost, Dv)
+  /\ UNCHANGED <<base, journal, ver, revs, nextId, saved, dead, ghost, steps, cnt>>
 
 Next == \/ \E a \in Acct, k \in UNION {KindsOf[x] : x \in Acct} : \E v \in Dom(k) : Set(a, k, v)
         \/ Snapshot
@@ -131,6 +141,8 @@ RedoEqualsExec == sealed => redo = st
 \* block - every attribute, all roots, the published logs and the changed roots - is the block of a run that executed
 \* only the surviving writes (a reverted creation must not come back when the tries are flushed)
 NoTraceOfReverted == sealed => st = clean /\ pub = cleanpub
-\* ... and what a node reads back from the saved block is the executed state (events and the self-destruct flag are
-\* not persisted); on the design this is Persisted(st) by definition, the trace specification checks it on real re-reads
+\* ... the sealed block can be saved, and what a node reads back from the saved block is the executed state (events and
+\* the self-destruct flag are not persisted); on the design that is Persisted(st) by definition, the trace specification
+\* checks it on real re-reads
+SaveSucceeds == ~saveerr
 ====
